@@ -316,6 +316,30 @@ def state_lock_wrapping(eng: Engine, ck: Check, rule: str, only=('__init__', '__
     return out
 
 
+def state_operations_are_methods(eng: Engine, ck: Check, rule: str):
+    """The lock wrapper is attached by reflection: `inspect.getmembers(self, predicate=inspect.ismethod)`.  Only a FUNCTION bound in the class
+    body comes back from an instance as a method.  An operation bound to anything else -- functools.partialmethod / partial (read from an
+    instance it is a `functools.partial` object), a callable object, a staticmethod -- is silently left out: it runs without the state lock
+    and without the re-dispatch on the current state.  Class-level bindings of operation names in the state classes are `async def`s or
+    aliases of one (`queue = FailedState.queue`)."""
+    base = eng.cls('TransferState', TSTATE)
+    ops = {n_ for n_, f_ in base.methods.items() if not n_.startswith('_') and f_.is_async}
+    n = 0
+    for ci in [base] + eng.repo.subclasses(base):
+        for st in ci.node.body:
+            if not isinstance(st, (ast.Assign, ast.AnnAssign)) or getattr(st, 'value', None) is None:
+                continue
+            for t in (st.targets if isinstance(st, ast.Assign) else [st.target]):
+                if isinstance(t, ast.Name) and t.id in ops:
+                    n += 1
+                    v = st.value
+                    ok = isinstance(v, (ast.Attribute, ast.Name)) and state_operation(eng, ci, t.id) is not None
+                    ck.ob(rule, ci, st, f'{ci.name}.{t.id} is bound to a function (an `async def` or an alias of one), which is what `_wrap_lock` finds with inspect.ismethod', ok,
+                          f'bound to `{unparse(v)[:70]}`: read from an instance this is not a method, `_wrap_lock` skips it, {ci.name}.{t.id}() runs without the state lock '
+                          '(a second operation issued while it is suspended finds the lock free and the old state still current)', construct=f'{ci.name}.{t.id} is a method')
+    ck.note(f'{rule}: {n} class-level bindings of state operations examined')
+
+
 def lock_wrapper_forwards_arguments(eng: Engine, ck: Check, rule: str, relies: str):
     """Both dispatch paths of the state-lock wrapper (the method the caller looked up; the same operation of the state that is current
     once the lock is held) receive ALL the caller's arguments: `*args` and `**kwargs` of the wrapper.  The re-dispatch path is taken only
@@ -345,6 +369,59 @@ def lock_wrapper_forwards_arguments(eng: Engine, ck: Check, rule: str, relies: s
               '(abort(reason=..) becomes abort(): an upload aborted on request has no reason and is queued again by the next shares / block-list evaluation)',
               construct=f'wrapper forwards arguments to {"looked-up method" if looked_up else "bound method"}')
     ck.floor(rule + '.wrapper_calls', n, 1)
+
+
+# --------------------------------------------------------------------------- every waiter waits on a future of its own
+def waiters_are_fresh(eng: Engine, ck: Check, rule: str, relies: str):
+    """asyncio cancels the future a task is awaiting when the task is cancelled -- and that wakes EVERY other task awaiting the same future
+    with CancelledError.  A waiter for a server / peer message therefore gets a future nobody else awaits: the factories
+    (`create_server_response_future`, `create_peer_response_future`) return the ExpectedResponse they have just constructed, on every
+    path; they never hand out an entry of the registry ("an identical request is already pending")."""
+    net = eng.cls('Network', NET)
+    n = 0
+    for name in ('create_server_response_future', 'create_peer_response_future'):
+        m = net.methods.get(name)
+        if m is None:
+            raise AnalysisError(f'anchor vanished: Network.{name}')
+        ck.visited(m)
+        n += 1
+        rets = [r for r in walk_local(m.node) if isinstance(r, ast.Return)]
+        bad = []
+        for r in rets:
+            v = expand_aliases(m, r.value) if r.value is not None else None
+            arms = [leaf for _, leaf in ifexp_cases(v)] if v is not None else []
+            if not arms or not all(isinstance(a_, ast.Call) and call_name(a_) == 'ExpectedResponse' for a_ in arms):
+                bad.append(unparse(r.value) if r.value is not None else 'None')
+        ck.ob(rule, m, m.node, f'{name} returns the ExpectedResponse it has just constructed, on every path ({relies})', bool(rets) and not bad,
+              f'returns {bad}: two requests share one future; cancelling one of them (its caller gives up, it lost a race, its timeout fires) cancels the future and the OTHER '
+              'request ends with CancelledError -- neither a connection nor PeerConnectionError, and none of the `except NetworkError` arms sees it',
+              construct=f'{name} returns a fresh future')
+    return n
+
+
+# --------------------------------------------------------------------------- @on_message really registers the handler
+def on_message_registers(eng: Engine, ck: Check, rule: str, relies: str):
+    """`@on_message(M)` marks the handler (`_registered_message = M`) and `build_message_map` collects the bound methods that carry the mark.
+    The decorator has to hand back THE OBJECT IT MARKED: a wrapper returned in its place (without the mark, functools.wraps or not, the mark
+    sits on the inner function) is a method nobody finds -- the handler silently leaves every message map."""
+    reg = eng.repo.find_func('events.py', 'on_message.<locals>.register')
+    if reg is None:
+        raise AnalysisError('anchor vanished: events.py:on_message.<locals>.register')
+    ck.visited(reg)
+    fp = reg.params[0] if reg.params else 'event_func'
+    marked = {unparse(t.value) for n_ in walk_local(reg.node) if isinstance(n_, ast.Assign) for t in n_.targets
+              if isinstance(t, ast.Attribute) and t.attr == '_registered_message'} | \
+        {unparse(x.args[0]) for x in calls_in(reg.node) if call_name(x) == 'setattr' and len(x.args) >= 2 and const(x.args[1]) == '_registered_message'}
+    rets = [n_ for n_ in walk_local(reg.node) if isinstance(n_, ast.Return)]
+    bad = [unparse(r.value) if r.value is not None else 'None' for r in rets if r.value is None or unparse(r.value) not in marked]
+    ck.ob(rule, reg, reg.node, f'on_message(..) returns the function it has marked with `_registered_message`, on every path ({relies})', bool(rets) and bool(marked) and not bad,
+          f'marked: {sorted(marked)}; returned: {bad}: build_message_map looks for the mark on the bound METHOD, i.e. on what the decorator returned; an unmarked wrapper is '
+          'skipped and its message is never handled', construct='on_message returns the marked function')
+    bm = eng.func('events.py', 'build_message_map')
+    ck.visited(bm)
+    ok = any(call_name(x) == 'getattr' and len(x.args) >= 2 and const(x.args[1]) == '_registered_message' for x in calls_in(bm.node)) and \
+        any(call_name(x) == 'getmembers' for x in calls_in(bm.node))
+    ck.ob(rule, bm, bm.node, 'build_message_map collects the members that carry `_registered_message`', ok, '', construct='build_message_map reads the mark')
 
 
 # --------------------------------------------------------------------------- a state-change listener never waits for its own deliverer
